@@ -153,7 +153,8 @@ impl InterfaceInner {
                 IpCidr::Ipv6(cidr) if cidr.address() != Ipv6Address::LOCALHOST => {
                     // Take the lower order 24 bits of the IPv6 address and
                     // append those bits to FF02:0:0:0:0:1:FF00::/104.
-                    addr.octets()[14..] == cidr.address().octets()[14..]
+                    addr.is_solicited_node_multicast()
+                        && addr.octets()[13..] == cidr.address().octets()[13..]
                 }
                 _ => false,
             }
@@ -487,7 +488,12 @@ impl InterfaceInner {
                         .fill(ip_repr.src_addr.into(), lladdr, self.now);
                 }
 
-                if self.has_solicited_node(ip_repr.dst_addr) && self.has_ip_addr(target_addr) {
+                // The solicitation is addressed either to the solicited-node group of one of
+                // our addresses (address resolution) or to the address itself (unreachability
+                // detection).
+                if (self.has_solicited_node(ip_repr.dst_addr) || self.has_ip_addr(ip_repr.dst_addr))
+                    && self.has_ip_addr(target_addr)
+                {
                     let advert = Icmpv6Repr::Ndisc(NdiscRepr::NeighborAdvert {
                         flags: NdiscNeighborFlags::SOLICITED,
                         target_addr,
